@@ -28,6 +28,14 @@
 //! `get_location_from(loc y, address(x))` finds x (at its location) exactly when x is an
 //! ancestor-or-self of y; absent addresses (right id / wrong max cut ±1, unknown id / right
 //! max cut, flushed-but-uncommitted command) are not found.
+//!
+//! Fault family: the same delivery on the harness's capturing in-memory `IoManager`, with the
+//! k-th backend `Write::commit` failing once with an I/O error, for every k ≥ 1 (k = 0 is the
+//! graph creation) over all DAGs n ≤ 5 (thorough 6) × commit-point subsets.  On the SAME storage
+//! handle the clauses must then hold for the last successful commit: `get_heads` is its frontier,
+//! `heads_offset` did not move, its commands are found, the commands written for the failed
+//! commit are not found (from the heads / from each head), ancestry is unchanged; the batch is
+//! then offered again and the following commits must behave normally.
 
 use std::{
     collections::BTreeSet,
@@ -42,7 +50,7 @@ use mcx::{json, rayon::prelude::*, Args, Level, Report, Value};
 
 use crate::{
     policy::{ScriptStore, VecSink},
-    store::{cmd_id, hash128, TestCmd},
+    store::{cmd_id, hash128, CapIo, TestCmd},
 };
 
 #[derive(Clone, Debug, PartialEq, Eq, PartialOrd, Ord)]
@@ -114,9 +122,14 @@ struct Stats {
     merge_lca_far: AtomicU64,
     multi_head_graphs: AtomicU64,
     max_skip_len: AtomicU64,
+    fault_runs: AtomicU64,
+    fault_fired: AtomicU64,
+    fault_uncommitted_probes: AtomicU64,
+    fault_multi_head_failed: AtomicU64,
 }
 
 thread_local! {
+    static BUFS_CAP: std::cell::RefCell<Option<Box<RuntimeBuffers<<LinearStorageProvider<CapIo> as StorageProvider>::Segment>>>> = const { std::cell::RefCell::new(None) };
     static BUFS_MEM: std::cell::RefCell<Option<Box<RuntimeBuffers<<MemStorageProvider as StorageProvider>::Segment>>>> = const { std::cell::RefCell::new(None) };
     static BUFS_FILE: std::cell::RefCell<Option<Box<RuntimeBuffers<<LinearStorageProvider<FileManager> as StorageProvider>::Segment>>>> = const { std::cell::RefCell::new(None) };
 }
@@ -324,6 +337,155 @@ fn run_graph(g: &Graph, st: &Stats, with_file: bool, scratch: &std::path::Path) 
         Ok(sig)
     });
     match r {
+        Ok(r) => r,
+        Err(p) => Err(format!("panic: {p} at {}", mcx::last_panic_location())),
+    }
+}
+
+
+// ---------------------------------------------------------------------------------------------
+// fault family: a backend commit that fails
+
+/// The C11 clauses for the committed set `in_s` (a down-closed set of nodes of `g`): the head set
+/// is its frontier, every member is found (at a location holding it), every non-member that was
+/// already delivered (`written`) is NOT found from the heads, ancestry among members is exact.
+fn verify_subset<S: Storage>(storage: &S, g: &Graph, mc: &[u64], anc: &[u128], in_s: &[bool], written: &[bool], st: &Stats, tag: &str) -> Result<(), String> {
+    let n = g.n();
+    let mut buf = TraversalBuffer::new();
+    let mut is_parent = vec![false; n];
+    for i in (0..n).filter(|&i| in_s[i]) {
+        for &p in &g.parents[i] {
+            is_parent[p] = true;
+        }
+    }
+    let want_heads: BTreeSet<CmdId> = (0..n).filter(|&i| in_s[i] && !is_parent[i]).map(|i| g.id(i)).collect();
+    let heads = storage.get_heads().map_err(|e| format!("[{tag}] get_heads: {e:?}"))?.clone();
+    let got_heads: BTreeSet<CmdId> = heads.iter().map(|h| h.id).collect();
+    if want_heads != got_heads {
+        return Err(format!("[{tag}] get_heads() = {:?} but the frontier of the last successful commit is {:?}", got_heads.iter().map(|i| (0..n).find(|&x| g.id(x) == *i)).collect::<Vec<_>>(), want_heads.iter().map(|i| (0..n).find(|&x| g.id(x) == *i)).collect::<Vec<_>>()));
+    }
+    let addr = |x: usize| Address { id: g.id(x), max_cut: MaxCut::new(mc[x]) };
+    let mut loc: Vec<Option<Location>> = vec![None; n];
+    for x in 0..n {
+        st.lookups.fetch_add(1, Relaxed);
+        let got = storage.get_location(addr(x), &mut buf).map_err(|e| format!("[{tag}] get_location(command {x}) failed: {e:?}"))?;
+        if in_s[x] {
+            let l = got.ok_or_else(|| format!("[{tag}] get_location(command {x}) = None although it is in the last successful commit"))?;
+            let seg = storage.get_segment(l).map_err(|e| format!("[{tag}] get_segment({l}) failed: {e:?}"))?;
+            let c = seg.get_command(l).ok_or_else(|| format!("[{tag}] get_location(command {x}) = {l}, which holds no command"))?;
+            if c.id() != g.id(x) {
+                return Err(format!("[{tag}] get_location(command {x}) = {l}, which holds another command"));
+            }
+            loc[x] = Some(l);
+        } else if written[x] {
+            st.fault_uncommitted_probes.fetch_add(1, Relaxed);
+            if let Some(l) = got {
+                return Err(format!("[{tag}] get_location finds command {x} at {l}, but it was only written for a commit that failed (not in the committed graph)"));
+            }
+            for h in heads.iter() {
+                st.lookups_from.fetch_add(1, Relaxed);
+                if let Some(l) = storage.get_location_from(h.location(), addr(x), &mut buf).map_err(|e| format!("[{tag}] get_location_from failed: {e:?}"))? {
+                    return Err(format!("[{tag}] get_location_from(head {}, command {x}) = Some({l}), but the command is not in the committed graph", h.location()));
+                }
+            }
+        }
+    }
+    for x in (0..n).filter(|&x| in_s[x]) {
+        for y in (0..n).filter(|&y| in_s[y]) {
+            let want = anc[y] & (1u128 << x) != 0;
+            st.ancestry.fetch_add(1, Relaxed);
+            let got = storage.is_ancestor(loc[x].unwrap(), loc[y].unwrap(), &mut buf).map_err(|e| format!("[{tag}] is_ancestor({x},{y}) failed: {e:?}"))?;
+            if got != want {
+                return Err(format!("[{tag}] is_ancestor(command {x}, command {y}) = {got}, reachability says {want}"));
+            }
+            st.lookups_from.fetch_add(1, Relaxed);
+            let got = storage.get_location_from(loc[y].unwrap(), addr(x), &mut buf).map_err(|e| format!("[{tag}] get_location_from({y},{x}) failed: {e:?}"))?;
+            if got.is_some() != (want || x == y) || got.is_some_and(|l| Some(l) != loc[x]) {
+                return Err(format!("[{tag}] get_location_from(command {y}, command {x}) = {got:?}, expected found={}", want || x == y));
+            }
+        }
+    }
+    Ok(())
+}
+
+/// Deliver `g` through the real client on a `CapIo` whose `fail_at`-th backend commit fails.
+/// Returns whether the fault fired.
+fn check_fault(g: &Graph, fail_at: u64, st: &Stats) -> Result<bool, String> {
+    let tag = "cap+fault";
+    let n = g.n();
+    let mc = g.max_cuts();
+    let anc = g.ancestors();
+    let (io, plan) = CapIo::failing_commit(fail_at);
+    let mut client = ClientState::new(ScriptStore, LinearStorageProvider::new(io));
+    let gid = GraphId::transmute(g.id(0));
+    let mut sink = VecSink::default();
+    st.fault_runs.fetch_add(1, Relaxed);
+    BUFS_CAP.with(|b| -> Result<bool, String> {
+        let mut b = b.borrow_mut();
+        let bufs = b.get_or_insert_with(|| Box::new(RuntimeBuffers::new()));
+        let mut trx = client.transaction(gid);
+        let mut committed = 0usize; // nodes 0..committed are in the last successful commit
+        let mut fired = false;
+        let mut i = 0usize;
+        while i < n {
+            let cmd = g.cmd(i, &mc);
+            let added = client.add_commands(&mut trx, &mut sink, &[cmd], bufs, MemSpill::new).map_err(|e| format!("[{tag}] add_commands(command {i}) failed: {e:?}"))?;
+            if added != 1 {
+                return Err(format!("[{tag}] add_commands(command {i}) added {added} commands"));
+            }
+            if i == 0 {
+                // delivering the init command creates the graph: backend commit #0 (never failed here)
+                committed = 1;
+            }
+            if !(g.commit_after[i] || i + 1 == n) {
+                i += 1;
+                continue;
+            }
+            let before = {
+                let storage = client.provider().get_storage(gid).map_err(|e| format!("[{tag}] get_storage: {e:?}"))?;
+                storage.heads_offset().map_err(|e| format!("[{tag}] heads_offset: {e:?}"))?
+            };
+            let failed_before = plan.failed.load(Relaxed);
+            let res = client.commit(trx, &mut sink, bufs, MemSpill::new);
+            trx = client.transaction(gid);
+            let fault_now = plan.failed.load(Relaxed) > failed_before;
+            match (res, fault_now) {
+                (Ok(_), false) => {
+                    committed = i + 1;
+                    i += 1;
+                }
+                (Ok(_), true) => return Err(format!("[{tag}] commit after command {i} returned Ok although the backend commit failed")),
+                (Err(e), false) => return Err(format!("[{tag}] commit after command {i} failed without an injected fault: {e:?}")),
+                (Err(_), true) => {
+                    fired = true;
+                    st.fault_fired.fetch_add(1, Relaxed);
+                    // same storage handle: everything must still describe the last successful commit
+                    let in_s: Vec<bool> = (0..n).map(|x| x < committed).collect();
+                    let written: Vec<bool> = (0..n).map(|x| x <= i).collect();
+                    let storage = client.provider().get_storage(gid).map_err(|e| format!("[{tag}] get_storage: {e:?}"))?;
+                    let after = storage.heads_offset().map_err(|e| format!("[{tag}] heads_offset: {e:?}"))?;
+                    if after != before {
+                        return Err(format!("[{tag}] heads_offset moved although the commit after command {i} failed"));
+                    }
+                    verify_subset(&*storage, g, &mc, &anc, &in_s, &written, st, tag).map_err(|e| format!("after the failed commit following command {i} (last successful commit holds commands 0..{committed}): {e}"))?;
+                    let is_parent: BTreeSet<usize> = (0..=i).flat_map(|x| g.parents[x].iter().copied()).collect();
+                    if (0..=i).filter(|x| !is_parent.contains(x)).count() > 1 {
+                        st.fault_multi_head_failed.fetch_add(1, Relaxed);
+                    }
+                    // the batch is offered again (a sync retry) and must now commit normally
+                    i = committed;
+                }
+            }
+        }
+        let all = vec![true; n];
+        let storage = client.provider().get_storage(gid).map_err(|e| format!("[{tag}] get_storage: {e:?}"))?;
+        verify_subset(&*storage, g, &mc, &anc, &all, &all, st, tag).map_err(|e| format!("after the final successful commit: {e}"))?;
+        Ok(fired)
+    })
+}
+
+fn run_fault(g: &Graph, fail_at: u64, st: &Stats) -> Result<bool, String> {
+    match mcx::catch(|| check_fault(g, fail_at, st)) {
         Ok(r) => r,
         Err(p) => Err(format!("panic: {p} at {}", mcx::last_panic_location())),
     }
@@ -578,10 +740,22 @@ pub fn run(args: &Args) {
         }
         fam_json.push(json!({"family": name, "graphs": graphs.len(), "checked": done, "file_manager": with_file}));
     }
+    // fault family: every backend commit index >= 1 fails once (index 0 is the graph creation)
+    let fault_graphs = dag_family(if quick { 5 } else { 6 });
+    let cases: Vec<(usize, u64)> = fault_graphs.iter().enumerate().flat_map(|(gi, g)| (1..=g.n() as u64 + 1).map(move |k| (gi, k))).collect();
+    let fouts: Vec<Result<bool, String>> = cases.par_iter().map(|&(gi, k)| run_fault(&fault_graphs[gi], k, &stats)).collect();
+    for (&(gi, k), r) in cases.iter().zip(fouts) {
+        if let Err(text) = r {
+            let g = &fault_graphs[gi];
+            rep.outcome("violation", 1);
+            rep.violation(format!("backend commit #{k} fails: {} parents={:?} commits={:?}", g.label, g.parents, g.commit_after.iter().map(|&b| b as u8).collect::<Vec<_>>()), text, json!({"label": g.label, "parents": g.parents, "commit_after": g.commit_after, "fail_commit": k}));
+        }
+    }
+    fam_json.push(json!({"family": "failed backend commit: DAGs x commit subsets x every commit index >= 1 failing once (CapIo)", "graphs": fault_graphs.len(), "runs": cases.len(), "faults_fired": stats.fault_fired.load(Relaxed)}));
     drop(scratch);
     rep.count("states", sigs.len() as u64);
     rep.count("transitions", stats.lookups.load(Relaxed) + stats.ancestry.load(Relaxed) + stats.lookups_from.load(Relaxed) + stats.absent.load(Relaxed) + stats.uncommitted_probe.load(Relaxed));
-    rep.count("traces_validated_against_impl", stats.graphs.load(Relaxed));
+    rep.count("traces_validated_against_impl", stats.graphs.load(Relaxed) + stats.fault_fired.load(Relaxed));
     rep.set("families", Value::Array(fam_json));
     rep.set("exhaustive", !cap);
     if cap {
@@ -602,6 +776,9 @@ pub fn run(args: &Args) {
         ("merge_segments", stats.merge_segments.load(Relaxed)),
         ("merge_segments_with_lca_10_or_more_below", stats.merge_lca_far.load(Relaxed)),
         ("multi_head_graphs", stats.multi_head_graphs.load(Relaxed)),
+        ("failed_commit_runs_with_fault_fired", stats.fault_fired.load(Relaxed)),
+        ("failed_commit_uncommitted_commands_probed", stats.fault_uncommitted_probes.load(Relaxed)),
+        ("failed_commit_with_several_written_heads", stats.fault_multi_head_failed.load(Relaxed)),
     ] {
         rep.count(k, v);
         if rep.violations().is_empty() {
@@ -624,6 +801,18 @@ fn replay(args: &Args, path: &std::path::Path) -> ! {
     let commit_after: Vec<bool> = r["commit_after"].as_array().unwrap_or_else(|| mcx::machinery_error("replay: commit_after")).iter().map(|b| b.as_bool().unwrap()).collect();
     let g = Graph { parents, commit_after, label: r["label"].as_str().unwrap_or("").to_string() };
     let stats = Stats::default();
+    if let Some(k) = r["fail_commit"].as_u64() {
+        match run_fault(&g, k, &stats) {
+            Ok(f) => {
+                println!("replay: no violation ({}, backend commit #{k} failing, fired={f})", g.label);
+                std::process::exit(0)
+            }
+            Err(e) => {
+                println!("VIOLATION property={} replay={}\n  {e}", args.prop, path.display());
+                std::process::exit(1)
+            }
+        }
+    }
     let scratch = mcx::Scratch::new("c11replay");
     let res = run_graph(&g, &stats, true, scratch.path());
     drop(scratch);
